@@ -422,7 +422,10 @@ public:
                   Scalar tol = 1e-10, SortRule sorting = SortRule::LargestMagn)
     {
         // The m-step Arnoldi factorization
-        m_fac.factorize_from(1, m_ncv, m_nmatop);
+        // If an earlier compute() has already built it, the iteration continues from there
+        // (factorizing from step 1 again would take the step-m residual for the step-1 one)
+        if (m_fac.subspace_dim() < m_ncv)
+            m_fac.factorize_from(1, m_ncv, m_nmatop);
         retrieve_ritzpair(selection);
         // Restarting
         Index i, nconv = 0, nev_adj;
